@@ -1056,7 +1056,8 @@ def rangeproof_rewind(
 
     pointer = POINTER(c_uint64)
 
-    msg = b"\x00" * message_length
+    # bytes(n), not b"\x00" * n: for n == 1 the product is the shared constant itself
+    msg = bytes(message_length)
     msglen = pointer(c_uint64(len(msg)))
 
     # a new buffer for every call: a bytes literal expression is one shared constant object
